@@ -268,12 +268,24 @@ SHAPES = {   # country -> pool of synthetic bank codes shaped for its lookup fie
     "GB": ["ABCD", "WXYZ", "NWBK"],
     "SI": ["01000", "02010", "99999"],
     "PL": ["10100000", "11401010", "24900005"],
+    "ES": ["2100", "0049", "9111"],
 }
+# codes that do NOT have the shape of the country's lookup key (bank+branch spelled together, a prefix, a longer code): rows
+# keyed by them exist in the registry, but no IBAN's bank-identifying fields spell them
+MISSHAPEN = {
+    "GB": ["NWBK601613", "ABCD000000", "NW"],
+    "ES": ["91110418", "21000418", "21"],
+    "DE": ["1000000", "100000001"],
+    "SI": ["01", "010001"],
+    "PL": ["101", "1010000"],
+}
+BIC_POOL_EXTRA = {"ES": ["CAIXESBB", "CAIXESBBXXX", "BSCHESMM001", "", None]}
 BIC_POOL = {
     "DE": ["AAAADEFF", "AAAADEFFXXX", "AAAADEFF123", "BBBBDEM1", "BBBBDEM1XXX", "CCCCDEB1999", "CCCCDEB1ABC", "", None],
     "GB": ["NWBKGB2L", "NWBKGB2LXXX", "NWBKGB2L123", "ABCDGB22XXX", "ABCDGB22AAA", "", None],
     "SI": ["BSLJSI2X", "BSLJSI2XXXX", "BSLJSI2XFNB", "LJBASI2X001", "", None],
     "PL": ["NBPLPLPW", "NBPLPLPWXXX", "NBPLPLPWABC", "WBKPPLPP001", "WBKPPLPP002", "", None],
+    "ES": ["CAIXESBB", "CAIXESBBXXX", "BSCHESMM001", "", None],
 }
 
 
@@ -295,7 +307,7 @@ def gen_config(rng):
                 if rng.random() < 0.25:
                     e["bank_code"] = rng.choice(SHAPES[cc])      # left-over field named like the expansion target
             else:
-                e["bank_code"] = rng.choice(SHAPES[cc] + [""])
+                e["bank_code"] = rng.choice(SHAPES[cc] + [""] + (MISSHAPEN.get(cc, []) if rng.random() < 0.3 else []))
                 e["primary"] = rng.random() < 0.5
             entries.append(e)
         if v2:
@@ -354,6 +366,23 @@ def run_config(rec: Rec, files, where, rng=None):
                 ibans.append(t)
                 ops.append({"op": "iban_info", "text": t})
                 tags.append(("iban_info", t))
+        # IBANs whose bank and branch fields, read together, spell a registry code that is not a lookup key of the country
+        for cc, pool in MISSHAPEN.items():
+            pos = o.positions(cc)
+            if "bank_code" not in pos or "branch_code" not in pos:
+                continue
+            (a1, e1), (a2, e2) = pos["bank_code"], pos["branch_code"]
+            for code in pool:
+                if len(code) != (e1 - a1) + (e2 - a2) or (cc, code) not in idx:
+                    continue
+                b = g.bban(cc, rng)
+                b = b[:a1] + code[:e1 - a1] + b[e1:]
+                b = b[:a2] + code[e1 - a1:] + b[e2:]
+                t = cc + canonical_digits(cc, b) + b
+                if o.accept_norm(t) and t not in ibans:
+                    ibans.append(t)
+                    ops.append({"op": "iban_info", "text": t})
+                    tags.append(("iban_info", t))
         for b in sorted(by_bic):
             ops.append({"op": "bic_info", "bic": b})
             tags.append(("bic_info", b))
